@@ -29,8 +29,8 @@ type worldSpec struct {
 
 	lists, dicts, sets, tuples, structs, funcs, bounds, scalars, iterables, indexables []string
 
-	elems []lit // literals likely (and unlikely) to be elements / keys of the containers
-	calls map[string][]string // callable name -> argument lists (source)
+	elems   []lit               // literals likely (and unlikely) to be elements / keys of the containers
+	calls   map[string][]string // callable name -> argument lists (source)
 	gocalls map[string][]goArgs
 }
 
